@@ -223,6 +223,9 @@ func (ex *Exec) reviveActive() {
 
 // onActive runs a query on the incremental solver; if the solver process dies the answer is "unknown".
 func (ex *Exec) onActive(f func(s *Solver) string) (res string) {
+	if ex.active != nil && ex.active.dead {
+		ex.reviveActive() // died outside a guarded query (while reading a model, say)
+	}
 	defer func() {
 		if r := recover(); r != nil {
 			if _, ok := r.(solverDied); ok && ex.active != nil && ex.active.dead {
@@ -239,6 +242,9 @@ func (ex *Exec) onActive(f func(s *Solver) string) (res string) {
 func (ex *Exec) assertPC(t *Term) {
 	if t.conc {
 		return
+	}
+	if ex.active != nil && ex.active.dead {
+		ex.reviveActive()
 	}
 	ex.pc = append(ex.pc, t)
 	ex.collectSyms(t)
@@ -519,9 +525,15 @@ func (ex *Exec) model1(extra []*Term) (map[string]string, []uint64, bool) {
 	ts = append(ts, extra...)
 	var vals []uint64
 	ok := false
-	r := ex.active.check()
-	if r == "sat" {
-		vals, ok = ex.active.getValues(ts)
+	r := ex.onActive(func(s *Solver) string {
+		r := s.check()
+		if r == "sat" {
+			vals, ok = s.getValues(ts)
+		}
+		return r
+	})
+	if r == "unknown" {
+		vals, ok = nil, false
 	}
 	if !ok && r != "unsat" {
 		r2, v2 := ex.fallbackQuery(nil, ts)
